@@ -77,8 +77,9 @@ def judge_simplify(ctx: Ctx, ev: P.Event, case: Any, nested: bool) -> None:  # n
         if r == "unknown":
             ctx.inconclusive_case()
         elif r == "sat":
-            ctx.violation("raise-on-feasible", "simplify raised ValueError for %s in context %s, which has an interior "
-                          "point" % (X.fmt_list(src), X.fmt_list(cx)), case, w)
+            audit = M.lp_audit(ev.walk())
+            ctx.violation("raise-on-feasible" + (":" + audit if audit else ""), "simplify raised ValueError for %s in "
+                          "context %s, which has an interior point" % (X.fmt_list(src), X.fmt_list(cx)), case, w)
         else:
             ctx.count("simplify:raise-justified")
         return
@@ -105,8 +106,10 @@ def judge_simplify(ctx: Ctx, ev: P.Event, case: Any, nested: bool) -> None:  # n
     if r == "unknown":
         ctx.inconclusive_case()
     elif r == "sat":
-        ctx.violation("meaning-changed", "simplify(%s | %s) returned %s, which no longer implies the original in the "
-                      "context" % (X.fmt_list(src), X.fmt_list(cx), X.fmt_list(res)), case, w)
+        audit = M.lp_audit(ev.walk())
+        ctx.violation("meaning-changed" + (":" + audit if audit else ""), "simplify(%s | %s) returned %s, which no "
+                      "longer implies the original in the context" % (X.fmt_list(src), X.fmt_list(cx),
+                                                                        X.fmt_list(res)), case, w)
     # (iii) nothing redundant with margin left
     if len(res) - len(src) < 0:
         ctx.count("simplify:dropped-something:" + tag)
@@ -122,10 +125,8 @@ def judge_simplify(ctx: Ctx, ev: P.Event, case: Any, nested: bool) -> None:  # n
             ctx.inconclusive_case()
         elif r == "unsat":
             # mechanism: did the solver give up on one of the LPs of this call (status != 0 on its last attempt)?
-            lps = [e for e in ev.walk() if e.op == "linprog" and e.out == "ret"]
-            bad = sorted({e.res["LP"]["status"] for e in lps if isinstance(e.res, dict) and e.res.get("LP", {}).get(
-                "status") not in (0, None)})
-            mech = "redundant-term-kept" + (":solver-status-%s" % "-".join(str(x) for x in bad) if bad else "")
+            audit = M.lp_audit(ev.walk())
+            mech = "redundant-term-kept" + (":" + audit if audit else "")
             ctx.violation(mech, "simplify(%s | %s) returned %s: the term %s is implied with margin by "
                           "the others and the context" % (X.fmt_list(src), X.fmt_list(cx), X.fmt_list(res),
                                                           X.fmt_term(t)), case)
@@ -184,6 +185,20 @@ def judge_contract_event(ctx: Ctx, ev: P.Event, case: Any) -> None:
 
 
 def run_case(ctx: Ctx, case: Dict[str, Any]) -> None:
+    if case.get("family") == "core":
+        # regressions on the seed-independent core are never attributed to an open known finding
+        before = len(ctx.violations)
+        _run_case(ctx, case)
+        for v in ctx.violations[before:]:
+            if not v["mechanism"].endswith(":regression-core"):
+                ctx.counters["violations:" + v["mechanism"]] -= 1
+                v["mechanism"] += ":regression-core"
+                ctx.counters["violations:" + v["mechanism"]] += 1
+        return
+    _run_case(ctx, case)
+
+
+def _run_case(ctx: Ctx, case: Dict[str, Any]) -> None:
     rec = recorder()
     rec.reset()
     rec.keep_raw = True
@@ -342,8 +357,6 @@ CORE = [
      "ctx": [{"c": {"e": -0.0101, "a": -250000.0}, "k": 500000.10985999997}]},
     {"kind": "list", "family": "core", "style": "wide", "terms": [{"c": {"a": -948.8, "c": -1000000.0, "e": -0.0008812}, "k": -2000948.8025435999}, {"c": {"b": -3.0, "e": 1000000.0, "a": 1000000.0}, "k": 3999992.234}, {"c": {"a": -1.234, "e": 1000.0, "d": 250000.0}, "k": -496966.304}], "ctx": [{"c": {"c": -78.9}, "k": 1000.0}, {"c": {"d": 123400.0, "c": -9.999}, "k": -370199.5}, {"c": {"a": 1.234, "c": 0.5, "e": -0.02116}, "k": -3.24432}]},
     {"kind": "list", "family": "core", "style": "wide", "terms": [{"c": {"b": -0.0001, "a": 1000.0}, "k": 0.9997}, {"c": {"a": -1.234}, "k": 1.234}, {"c": {"a": 0.0006429}, "k": 0.001}, {"c": {"b": -9.99995e-05}, "k": 12.4997}, {"c": {"b": 10090.0, "a": 7.708}, "k": 30270.0001}], "ctx": [{"c": {"b": -0.0001}, "k": 12.4997}]},
-    {"kind": "list", "family": "core", "style": "wide", "terms": [{"c": {"a": -0.02, "c": 0.2894}, "k": 249999.7506}, {"c": {"b": -0.0001, "a": -123400.0, "c": -1000.0}, "k": 1247800.0}, {"c": {"c": 263600.0, "a": -2.0}, "k": -263594.0}, {"c": {"c": 1000.0, "b": 1.234, "a": 0.125}, "k": -981.77}, {"c": {"c": 1003.0, "b": 1.234, "a": 1000000.125}, "k": -980.75}], "ctx": [{"c": {"c": 3.0, "a": 1000000.0}, "k": 0.02}]},
-    {"kind": "list", "family": "core", "style": "wide", "terms": [{"c": {"c": -1000.0, "b": 0.5}, "k": 1002.0}, {"c": {"a": -0.0002574}, "k": 123399.9997426}, {"c": {"c": 1000.0, "b": -0.0004496, "a": -0.125}, "k": -1000.1157992000001}, {"c": {"a": -1.0, "c": -2999.998, "b": 1.5}, "k": 3006.248}, {"c": {"a": -0.5, "c": 0.001}, "k": -0.376}], "ctx": []},
     {"kind": "list", "family": "core", "style": "int", "terms": [{"c": {}, "k": 0.0}, {"c": {}, "k": 1.0},
                                                                  {"c": {}, "k": 2.5}], "ctx": [{"c": {}, "k": 1.0}]},
     {"kind": "list", "family": "core", "style": "float",
